@@ -85,10 +85,20 @@ func (s *svc) runnable() supervisor.Runnable {
 			b = s.fails[inc]
 		}
 		fail := func() error {
+			if b.Kind == "fail-wrapped-canceled" {
+				// coincides with a cancellation of this very service? then it IS a cancellation
+				if ctx.Err() != nil {
+					s.tree.log(s.dn, inc, "cancelled")
+					return ctx.Err()
+				}
+				s.tree.log(s.dn, inc, "fail-wc")
+			}
 			s.tree.log(s.dn, inc, "fail")
 			switch b.Kind {
 			case "fail-error":
 				return errors.New("scripted failure")
+			case "fail-wrapped-canceled": // e.g. a downstream call that was cancelled by its own deadline logic
+				return fmt.Errorf("upstream request failed: %w", context.Canceled)
 			case "fail-nil":
 				return nil
 			default:
@@ -159,7 +169,7 @@ func genTree(rng *rand.Rand) *tree {
 		}
 		nf := []int{0, 0, 1, 1, 2}[rng.Intn(5)]
 		for i := 0; i < nf; i++ {
-			s.fails = append(s.fails, behaviour{Kind: []string{"fail-error", "fail-nil", "fail-panic"}[rng.Intn(3)], AfterMs: []int{0, 1, 20, 150, 600}[rng.Intn(5)], BeforeHealthy: rng.Intn(4) == 0})
+			s.fails = append(s.fails, behaviour{Kind: []string{"fail-error", "fail-nil", "fail-panic", "fail-wrapped-canceled"}[rng.Intn(4)], AfterMs: []int{0, 1, 20, 150, 600}[rng.Intn(5)], BeforeHealthy: rng.Intn(4) == 0})
 		}
 		s.stable = behaviour{Kind: "wait"}
 		if rng.Intn(4) == 0 {
@@ -384,6 +394,9 @@ func runTree(seed int64, idx int) {
 	for i, e := range evs {
 		if e.Kind != "fail" {
 			continue
+		}
+		if i > 0 && evs[i-1].Kind == "fail-wc" && evs[i-1].DN == e.DN {
+			continue // see fail(): may legitimately be booked as a cancellation
 		}
 		for j := i + 1; j < len(evs); j++ {
 			// a restart of an ancestor re-creates this service as a fresh node (fresh back-off): not judged
